@@ -1,6 +1,7 @@
 import Tsg.Driver.AstIO
 import Tsg.Driver.Ops
 import Tsg.Sem.Lazy
+import Tsg.Sem.Contracts
 
 namespace Driver
 
@@ -57,5 +58,15 @@ def handleExec (t : Tree) (args : List Sexp) : Sexp :=
     else
       runResultSexp (Strict.run r.file t r.oracle.toOracle r.globals r.locAttr r.varAttr r.matchAttr
         r.cancelAt r.fuel r.matchLists r.graph0)
+
+/-- `(contracts <the arguments of exec>)`: the executable contracts of the panic-freedom theorems on this request:
+`(contracts tree-ok globals-wf strict-matches-ok merged-matches-ok)` -/
+def handleContracts (t : Tree) (args : List Sexp) : Sexp :=
+  match execReqOfSexp args with
+  | none => .list [.atom "bad-request"]
+  | some r =>
+    let b := fun (x : Bool) => Sexp.atom (if x then "true" else "false")
+    .list [.atom "contracts", b (Contracts.treeOKB t), b (Contracts.globalsWfB r.graph0.nodes.length r.globals),
+           b (Contracts.strictMatchesOKB t r.file.stanzas r.matchLists), b (Contracts.mergedAllOKB t r.file.stanzas r.merged)]
 
 end Driver
